@@ -24,7 +24,7 @@ def corpus_cc(ctx):
     from harness import gen_cc
     rng = ctx.rng('graphcc')
     n = 250 if ctx.quick else 3000
-    return [gen_cc.theory_conn_example()] + [gen_cc.random_cc_graph(rng) for _ in range(n)]
+    return [gen_cc.theory_conn_example()] + gen_cc.exclusion_with_conditional_target_examples() + [gen_cc.random_cc_graph(rng) for _ in range(n)]
 
 
 def drive_one(item):
